@@ -4,6 +4,7 @@ import (
 	"encoding/xml"
 	"fmt"
 	"strings"
+	"time"
 	"unicode/utf8"
 
 	"github.com/emersion/go-webdav"
@@ -22,6 +23,20 @@ type tagCase struct {
 	Text B `json:"text,omitempty"`
 	// Class, when set on an enumerated near-miss, must agree with tagClass.
 	Class string `json:"class,omitempty"`
+	// Via, when set, also takes the value / text through the header side of
+	// the library's servers and clients (headers.go): one of hdrVias, or "*"
+	// for all of them.
+	Via string `json:"via,omitempty"`
+}
+
+func viasOf(via string) []string {
+	switch via {
+	case "":
+		return nil
+	case "*":
+		return hdrVias
+	}
+	return []string{via}
 }
 
 // tagClass puts a wire text into its near-miss class. "" means the text is a
@@ -210,6 +225,13 @@ func execTagRoundTrip(c *fw.Ctx, cs tagCase) {
 			return string(b), string(g.ETag), err
 		}},
 	}
+	for _, via := range viasOf(cs.Via) {
+		via := via
+		paths = append(paths, path{"server ETag header -> " + via + " client", func() (string, string, error) {
+			g, err := hdrRoundTrip(via, v, time.Time{})
+			return g.wireETag, g.etag, err
+		}})
+	}
 	for _, p := range paths {
 		var wire, back string
 		var err error
@@ -219,6 +241,8 @@ func execTagRoundTrip(c *fw.Ctx, cs tagCase) {
 		switch {
 		case panicked:
 			reportPanic(c, "etag", p.name, pv, stack, cs)
+		case err != nil && strings.HasPrefix(err.Error(), "harness:"):
+			c.Inconclusive("C16 " + p.name + ": " + err.Error())
 		case err != nil:
 			c.Report("roundtrip|etag|decode-error", fmt.Sprintf("tag %q written as %q is refused on the way back (%s): %v", v, clip(wire), p.name, err), witness{"etag", cs, got})
 		case back != v:
@@ -253,10 +277,20 @@ func execTagDecode(c *fw.Ctx, cs tagCase) {
 	type dec struct {
 		name string
 		f    func(string) (string, error)
+		prim string // key element: "etag", or "etag-header" for the clients' own header readers
 	}
 	decs := []dec{}
 	for _, d := range tagDecoders {
-		decs = append(decs, dec{d.name, d.dec})
+		decs = append(decs, dec{d.name, d.dec, "etag"})
+	}
+	if headerValueOK(text) {
+		for _, via := range viasOf(cs.Via) {
+			via := via
+			decs = append(decs, dec{"ETag header -> " + via + " client", func(t string) (string, error) {
+				g, err := hdrDecode(via, map[string]string{"ETag": t})
+				return g.etag, err
+			}, "etag-header"})
+		}
 	}
 	if xmlChardataOK(text) {
 		decs = append(decs, dec{"xml getetag", func(t string) (string, error) {
@@ -267,28 +301,35 @@ func execTagDecode(c *fw.Ctx, cs tagCase) {
 			var g internal.GetETag
 			err := xml.Unmarshal([]byte(sb.String()), &g)
 			return string(g.ETag), err
-		}})
+		}, "etag"})
 	}
 	for _, d := range decs {
 		var val string
 		var err error
 		panicked, pv, stack := fw.Guard(func() { val, err = d.f(text) })
 		c.Observe("etag_decode", label+"|"+verdict(err, panicked), 1)
+		if d.prim != "etag" {
+			c.Observe("etag_decode_header_side", d.name+"|"+label+"|"+verdict(err, panicked), 1)
+		}
+		if err != nil && strings.HasPrefix(err.Error(), "harness:") {
+			c.Inconclusive("C16 " + d.name + ": " + err.Error())
+			continue
+		}
 		got := map[string]interface{}{"decoder": d.name, "decoded": B(val), "err": fw.ErrString(err)}
 		switch {
 		case panicked:
 			reportPanic(c, "etag", d.name, pv, stack, cs)
 		case cls != "":
 			if err == nil {
-				c.Report("decode|etag|accepts-"+cls, fmt.Sprintf("%s accepts %q (%s, outside the entity-tag grammar) as %q", d.name, text, cls, val), witness{"etag", cs, got})
+				c.Report("decode|"+d.prim+"|accepts-"+cls, fmt.Sprintf("%s accepts %q (%s, outside the entity-tag grammar) as %q", d.name, text, cls, val), witness{"etag", cs, got})
 			}
 		case err == nil && !dontCare:
 			// A quoted text without any backslash has one reading only.
 			in := text[1 : len(text)-1]
 			if !strings.Contains(in, `\`) && val != in {
-				key := "decode|etag|value-changed"
+				key := "decode|" + d.prim + "|value-changed"
 				if !utf8.ValidString(in) {
-					key = "decode|etag|invalid-utf8-replaced"
+					key = "decode|" + d.prim + "|invalid-utf8-replaced"
 				}
 				c.Report(key, fmt.Sprintf("%s reads %q as %q without an error (interior bytes differ)", d.name, text, val), witness{"etag", cs, got})
 			}
@@ -335,7 +376,7 @@ func runTags(c *fw.Ctx) {
 	for a := 0; a < 256; a++ {
 		for b := 0; b < 256; b++ {
 			if c.Mine(idx) {
-				execTag(c, tagCase{Mode: "roundtrip", Value: B([]byte{byte(a), byte(b)})})
+				execTag(c, tagCase{Mode: "roundtrip", Value: B([]byte{byte(a), byte(b)}), Via: hdrViaFor(a + b)})
 			}
 			idx++
 		}
@@ -344,7 +385,7 @@ func runTags(c *fw.Ctx) {
 		execTag(c, tagCase{Mode: "roundtrip", Value: ""})
 		c.Observe("exhaustive", "etag values: all strings of 0, 1 and 2 bytes", 1)
 		for _, nm := range tagNearMisses() {
-			execTag(c, tagCase{Mode: "decode", Text: B(nm.text), Class: nm.class})
+			execTag(c, tagCase{Mode: "decode", Text: B(nm.text), Class: nm.class, Via: "*"})
 		}
 	}
 	// Generated values.
@@ -354,7 +395,7 @@ func runTags(c *fw.Ctx) {
 			continue
 		}
 		r := c.Rand("etag-value", i)
-		execTag(c, tagCase{Mode: "roundtrip", Value: B(genBytes(r))})
+		execTag(c, tagCase{Mode: "roundtrip", Value: B(genBytes(r)), Via: hdrViaFor(i / 16)})
 	}
 	// Generated wire texts: mutations of well-formed texts, re-quotings, and
 	// arbitrary strings.
@@ -386,6 +427,6 @@ func runTags(c *fw.Ctx) {
 				text = mutate(r, text, alphabet)
 			}
 		}
-		execTag(c, tagCase{Mode: "decode", Text: B(text)})
+		execTag(c, tagCase{Mode: "decode", Text: B(text), Via: hdrViaFor(i / 16)})
 	}
 }
